@@ -122,6 +122,19 @@ class Tr:
         if ('attr', t, n.attr) in env.methods:
           return env.methods[('attr', t, n.attr)](self, c)
       fail(n, 'unknown attribute')
+    if isinstance(n, (ast.GeneratorExp, ast.ListComp)):
+      # (x for x in s if c) / [x for x in s if c] over a list of geo positions: a filter that keeps the order
+      g = n.generators
+      if (len(g) != 1 or g[0].is_async or not isinstance(g[0].target, ast.Name) or not isinstance(n.elt, ast.Name)
+          or n.elt.id != g[0].target.id):
+        fail(n, 'comprehension')
+      it, itt = self.expr(g[0].iter, env)
+      if itt != 'S':
+        fail(n, 'comprehension over ' + itt)
+      env2 = env.copy()
+      env2.names[n.elt.id] = (n.elt.id, 'N')
+      conds = [self.truth(*self.expr(c, env2), c) for c in g[0].ifs] or ['true']
+      return ('(filter (fun %s => %s) %s)' % (n.elt.id, ' && '.join(conds), it), 'S')
     if isinstance(n, ast.SetComp):
       # {f(x) for x in s}: the image of a set of geo indices
       if len(n.generators) != 1 or n.generators[0].ifs or n.generators[0].is_async or not isinstance(n.generators[0].target, ast.Name):
@@ -149,6 +162,12 @@ class Tr:
       return ('(ad_set [] %s %s)' % (toZ(k, kt), v), 'A' + vt)
     if isinstance(n, ast.Subscript):
       d = dotted(n.value)
+      if isinstance(n.slice, ast.Slice) and n.slice.lower is None and n.slice.step is None and n.slice.upper is not None:
+        c, t = self.expr(n.value, env)
+        k, kt = self.expr(n.slice.upper, env)
+        if t == 'S' and kt in ('N', 'Z'):
+          return ('(firstn %s %s)' % (k if kt == 'N' else '(Z.to_nat %s)' % k, c), 'S')     # l[:k], k >= 0 is the caller's obligation
+        fail(n, 'slice')
       if (isinstance(n.slice, ast.UnaryOp) and isinstance(n.slice.op, ast.USub) and isinstance(n.slice.operand, ast.Constant)
           and n.slice.operand.value == 1):
         c, t = self.expr(n.value, env)
@@ -232,6 +251,8 @@ class Tr:
         fail(n, 'is None on non-optional')
       return ('(%s %s)' % ('is_none' if isinstance(op, ast.Is) else 'is_some', c), 'B')
     (a, ta), (b, tb) = self.expr(l, env), self.expr(r, env)
+    if isinstance(op, ast.NotIn) and ta in ('N',) and tb == 'S':
+      return ('(negb (mem %s %s))' % (a, b), 'B')
     if isinstance(op, ast.In):
       if ta in ('N',) and tb == 'S':
         return ('(mem %s %s)' % (a, b), 'B')
